@@ -6,6 +6,7 @@ package main
 
 import (
 	"bufio"
+	"os"
 	"fmt"
 	"io"
 	"os/exec"
@@ -50,10 +51,11 @@ type Solver struct {
 	timeoutS int
 	lastErr  string
 	crossN   int // cross-check every crossN-th query (0 = never)
+	logf     *os.File
 }
 
 func NewSolver(tb *TB, timeoutS int) (*Solver, error) {
-	s := &Solver{tb: tb, bin: "z3", timeoutS: timeoutS}
+	s := &Solver{tb: tb, bin: solverBin(), timeoutS: timeoutS}
 	s.args = []string{"-in", fmt.Sprintf("-t:%d", timeoutS*1000)}
 	if err := s.start(); err != nil {
 		return nil, err
@@ -76,6 +78,9 @@ func (s *Solver) start() error {
 		return err
 	}
 	s.in = in
+	if p := os.Getenv("VERIF_SMTLOG"); p != "" {
+		s.logf, _ = os.Create(fmt.Sprintf("%s.%d", p, s.cmd.Process.Pid))
+	}
 	s.out = bufio.NewReaderSize(out, 1<<16)
 	s.level = 0
 	s.emitted = [][]*Term{nil}
@@ -95,11 +100,17 @@ func (s *Solver) Close() {
 
 func (s *Solver) send(line string) {
 	s.lines[s.level] = append(s.lines[s.level], line)
+	if s.logf != nil {
+		io.WriteString(s.logf, line+"\n")
+	}
 	io.WriteString(s.in, line)
 	io.WriteString(s.in, "\n")
 }
 
 func (s *Solver) raw(line string) {
+	if s.logf != nil {
+		io.WriteString(s.logf, line+"\n")
+	}
 	io.WriteString(s.in, line)
 	io.WriteString(s.in, "\n")
 }
@@ -202,9 +213,12 @@ func (s *Solver) Check() SatResult {
 	}
 	s.stats.Queries++
 	s.stats.WallS += time.Since(t0).Seconds()
+	if s.logf != nil {
+		fmt.Fprintf(s.logf, "; query %d took %.1f ms level %d -> %v\n", s.stats.Queries, time.Since(t0).Seconds()*1000, s.level, res)
+	}
 	if res == Unknown && s.lastErr == "" {
 		// retry on the other solvers with the full transcript
-		r2 := s.oneShot("z3-new", []string{"-in", fmt.Sprintf("-T:%d", s.timeoutS*3)}, "")
+		r2 := s.oneShot(otherZ3(s.bin), []string{"-in", fmt.Sprintf("-T:%d", s.timeoutS*3)}, "")
 		s.stats.Retried++
 		if r2 == Unknown {
 			r2 = s.oneShot("cvc5", []string{"--lang=smt2", fmt.Sprintf("--tlimit=%d", s.timeoutS*3000)}, "")
@@ -226,7 +240,7 @@ func (s *Solver) Check() SatResult {
 		s.stats.Unknown++
 	}
 	if s.crossN > 0 && res != Unknown && s.stats.Queries%s.crossN == 0 {
-		r2 := s.oneShot("z3-new", []string{"-in", fmt.Sprintf("-T:%d", s.timeoutS*3)}, "")
+		r2 := s.oneShot(otherZ3(s.bin), []string{"-in", fmt.Sprintf("-T:%d", s.timeoutS*3)}, "")
 		s.stats.Crossed++
 		if r2 != Unknown && r2 != res {
 			s.stats.Disagree++
@@ -427,3 +441,19 @@ func parseGetValue(txt string, f func(name, val string)) {
 }
 
 type abortErr struct{ msg string }
+
+// solverBin: z3 5.1.0 (z3-new) is the primary back end (measured ~10x faster than 4.8.12 on
+// the builder's formulas); VERIF_SOLVER=z3 selects 4.8.12.
+func solverBin() string {
+	if b := os.Getenv("VERIF_SOLVER"); b != "" {
+		return b
+	}
+	return "z3-new"
+}
+
+func otherZ3(bin string) string {
+	if bin == "z3" {
+		return "z3-new"
+	}
+	return "z3"
+}
